@@ -66,10 +66,9 @@ def execute(job):
         return {"skip": why}
     rng = rng_for("c03run", sorted(desc.items()), stream)
     crystalfam.rattle(s, desc["noise"], rng)
-    lateral = rng.integers(0, 2)
-    perm = rng.permutation(len(s))
-    s2 = s[perm]
-    inv = np.argsort(perm)
+    # the same stack, stored differently: rigid rotation / translation (atoms left outside the cell, pushed along a non-periodic
+    # stacking direction, or wrapped through the boundary), left-handed basis, constraints and tags, atom order
+    s2, perm = structures.rigid(s, rng, rotate=bool(desc["i"] % 3), translate=True, permute=True)
     exp = [sorted(int(np.flatnonzero(perm == i)[0]) + 1 for i in range(nb)), sorted(int(np.flatnonzero(perm == i)[0]) + 1 for i in range(nb, len(s)))]
     seed = int(rng.integers(0, 1000))
     rec = {"desc": desc, "stream": stream, "n": len(s2), "seed": seed, "expected": exp, "expected_dim": 2, "error": "", "final": [], "dims": []}
